@@ -894,7 +894,7 @@ class Interp:
             cargs = tup.fields if isinstance(tup, Agg) and tup.kind == "tuple" else [] if tup is UNIT else None
             if cargs is not None:
                 return self.apply_callable(args[0], cargs, fr, t, depth)
-        m = re.match(r"std::(result::Result::<T, E>|option::Option::<T>)::(map|map_err|and_then|unwrap_or|unwrap_or_else|ok|is_ok|is_err|is_some|is_none)$", name)
+        m = re.match(r"std::(result::Result::<T, E>|option::Option::<T>)::(map|map_err|and_then|unwrap_or|unwrap_or_else|ok|ok_or|ok_or_else|is_ok|is_err|is_some|is_none)$", name)
         if m and args and isinstance(args[0], Agg) and args[0].variant in ("Ok", "Err", "Some", "None"):
             # std docs: the adapters of Result / Option on a value whose variant is known
             r, fn = args[0], m.group(2)
@@ -906,6 +906,11 @@ class Interp:
                 return AI("bool", int(not good), int(not good))
             if fn == "ok":
                 return mk_variant("std::option::Option", "Some", [r.fields[0]]) if good else mk_variant("std::option::Option", "None", [])
+            if fn == "ok_or":
+                return mk_variant("std::result::Result", "Ok", [r.fields[0]]) if good else mk_variant("std::result::Result", "Err", [args[1]])
+            if fn == "ok_or_else":
+                return mk_variant("std::result::Result", "Ok", [r.fields[0]]) if good else \
+                    mk_variant("std::result::Result", "Err", [self.apply_callable(args[1], [], fr, t, depth)])
             if fn == "map":
                 return mk_variant(adt, r.variant, [self.apply_callable(args[1], [r.fields[0]], fr, t, depth)]) if good else r
             if fn == "map_err":
@@ -1216,6 +1221,17 @@ class Interp:
         if not isinstance(x, AI) or not isinstance(y, AI):
             raise Unsupported("min/max of non-integers")
         f = min if which == "min" else max
+        # one operand dominates on the whole cell: the result is the other operand itself (with everything known about it)
+        if which == "min":
+            if x.hi <= y.lo:
+                return x
+            if y.hi <= x.lo:
+                return y
+        else:
+            if x.lo >= y.hi:
+                return x
+            if y.lo >= x.hi:
+                return y
         d = x.dir if x.dir == y.dir else (y.dir if x.dir == "c" else x.dir if y.dir == "c" else None)
         if d in ("up", "down", "c"):
             # both monotone the same way: min/max is monotone, end values exact
